@@ -78,8 +78,8 @@ prop("C06", [("R11", connect.r11_r12_connect), ("R13", connect.r13_nodata), ("R1
      "is published for composition start and producer start (fresh copy); (R10/R10b) connect loop terminates / lists stuck "
      "components. NOT decided: user _connect hooks, convergence speed.")
 
-prop("C07", [("R15", data.r15_fields), ("R16", data.r16_getinfo), ("R37", data.r37_masktable), ("R41", misc.r41_masktruth),
-             ("R34", grid.r34_transdir)],
+prop("C07", [("R15", data.r15_fields), ("R15g", data.r15g_gridcompat), ("R16", data.r16_getinfo), ("R37", data.r37_masktable),
+             ("R37e", data.r37e_masks_equal_layout), ("R41", misc.r41_masktruth), ("R34", grid.r34_transdir)],
      "Static: (R15) decision table of Info.accepts (every incompatible field recorded, unset fields tolerated only from downstream), "
      "both directions checked with a conflict ending in FinamMetaDataError, Output.get_info fills unset fields before counting the "
      "exchange; (R16) every _get_info exchanges exactly once and delivers info derived from the exchange result; (R37) mask "
@@ -130,20 +130,21 @@ prop("C13", [("R30", link.r30_delay), ("R02", sched.r02_sched_agree)],
      "times, bounded history; start before first push else min(t, newest push)); (R02) chained delays add up and the driver assumes "
      "what is requested. NOT decided: values delivered by the source.", [SCHED_MODEL])
 
-prop("C14", [("R31", grid.r31_memo), ("R32", grid.r32_gridsib), ("R32b", grid.r32b_indexspace)],
+prop("C14", [("R31", grid.r31_memo), ("R32", grid.r32_gridsib), ("R32b", grid.r32b_indexspace), ("R32c", grid.r32c_cellcenters)],
      "Static: (R31) every writer of a field a memoised grid property is computed from resets the memo; (R32) points, cells, "
      "cell_centers, data_shape, data_axes, data_points agree on order / axis direction / data location, setters validate locations, "
      "casts forward all layout fields; (R32b) index-space typing of order_map and of gen_cells' re-ordering. NOT decided: the index "
      "arithmetic inside gen_cells' corner formulas, coordinates as numbers.")
 
-prop("C15", [("R19", grid.r19_taxis), ("R33", grid.r33_mirror), ("R34", grid.r34_transdir)],
+prop("C15", [("R19", grid.r19_taxis), ("R33", grid.r33_mirror), ("R34", grid.r34_transdir), ("R15g", data.r15g_gridcompat)],
      "Static: (R33) layout algebra: to_canonical / from_canonical, abstractly interpreted for all 28 layouts (1-3 D, both axis "
      "orders, every direction combination), yield x,y,z-indexed increasing data, the grid's own layout, and the identity when "
      "composed; (R34) get_transform_to maps source layout onto target layout for all layout pairs, returns None only for equal "
      "layouts (the class's own __eq__), refuses incompatible grids; Input takes the transform source->merged grid; (R19) the "
      "transform never sees the time axis. NOT decided: 'compatible exactly when same locations' (np.allclose on coordinates).")
 
-prop("C16", [("R35", data.r35_regrid), ("R35b", misc.r35b_specside), ("R41", misc.r41_masktruth), ("R33", data.r33c_compress)],
+prop("C16", [("R35", data.r35_regrid), ("R35b", misc.r35b_specside), ("R41", misc.r41_masktruth), ("R33", data.r33c_compress),
+             ("R32c", grid.r32c_cellcenters), ("R32", grid.r32_gridsib)],
      "Static: (R35) coordinates and flattened data of both regridders use the same grid's order and mask on each side, tree built "
      "from source and queried with target coordinates; (R35b) pulled data is paired with the delivered grid's layout; (R41) masks "
      "are never truth-tested; (R33c) to_compressed / from_compressed mirror each other. NOT decided: nearest-neighbour and affine "
@@ -155,7 +156,7 @@ prop("C17", [("R36", data.r36_units)],
      "independent of query history; to_units relabels iff equivalent, converts otherwise, refuses incompatible; prepare/check raise "
      "FinamDataError. NOT decided: physical exactness of factors and offsets (pint is trusted).")
 
-prop("C18", [("R37", data.r37_masktable), ("R33", data.r33c_compress)],
+prop("C18", [("R37", data.r37_masktable), ("R37e", data.r37e_masks_equal_layout), ("R33", data.r33c_compress)],
      "Static: (R37) masks_compatible over 98 combinations of {None, FLEX, NONE, nomask, masks} x direction equals the documented "
      "table; masks travel with their own grid; prepare applies exactly info.mask; (R33c) compress/expand use the same order for data "
      "and mask and the negated mask as selector. NOT decided: element-wise round-trip equality as numbers.")
